@@ -147,6 +147,7 @@ type PackArg struct {
 	AllowOut  bool    `json:"allow_out,omitempty"` // AllowSymlinkTarget(<W>/out)
 	Legacy    bool    `json:"legacy,omitempty"`    // use package-level slug.Pack(src, w, deref)
 	Roundtrip bool    `json:"roundtrip,omitempty"`
+	Reuse     bool    `json:"reuse,omitempty"` // the same *Packer first packs the fixed tree <W>/pre
 	UID       int     `json:"uid,omitempty"`
 	// writer faults (C12)
 	FailAt    int  `json:"fail_at,omitempty"` // 0 = none; N>0: the writer fails once N-1 bytes were accepted
@@ -245,6 +246,11 @@ func runPack(arg PackArg) (out PackOut) {
 	if arg.AllowOut {
 		opts = append(opts, slug.AllowSymlinkTarget(filepath.Join(W, "out")))
 	}
+	if arg.Reuse {
+		BuildTree(W, []TNode{{Path: "pre/f", Kind: "file", Body: "12345"}, {Path: "pre/sub/g", Kind: "file", Body: "678"},
+			{Path: "pre/sub/ok", Kind: "link", Target: "../f"}, {Path: "pre/sub/a", Kind: "link", Target: "../a"}, {Path: "pre/a", Kind: "file", Body: "pa"},
+			{Path: "pre/l", Kind: "link", Target: "a"}, {Path: "pre/d/l", Kind: "link", Target: "../a"}, {Path: "pre/zz", Kind: "link", Target: "a"}})
+	}
 	before := fsx.Snapshot(W)
 	fw := &faultWriter{failAt: arg.FailAt, short: arg.ShortFail}
 	var meta *slug.Meta
@@ -260,6 +266,9 @@ func runPack(arg PackArg) (out PackOut) {
 		} else {
 			var p *slug.Packer
 			p, err = slug.NewPacker(opts...)
+			if err == nil && arg.Reuse {
+				p.Pack(filepath.Join(W, "pre"), io.Discard)
+			}
 			if err == nil {
 				meta, err = p.Pack(src, fw)
 			}
